@@ -790,6 +790,8 @@ impl World {
         let _ = (&mut node.runner).await;
         drop(node); // drops replica, manager handle
         self.settle().await;
+        // an armed "crash at the next durable write" belongs to the process that just died
+        engine.inner().ctl.lock().unwrap().crash_at = None;
         let node = self.make_node(pos, engine).await;
         self.nodes.insert(pos, node);
         self.settle().await;
